@@ -43,12 +43,12 @@ def g_at(G, t): return Sym(MapOO, mval(G, t))                        # the renam
 nv = Function('subs_name', Ob.sort(), IntSort(), Ob.sort())          # Variable(str(v.value) + "#SUBS#" + str(idx))
 idxof = Function('subs_index', Ob.sort(), IntSort())
 W.axioms += [ForAll([x, i_], isVar(nv(x, i_))), ForAll([x, i_], idxof(nv(x, i_)) == i_)]
-NAMED = {}
+NAMED = {}; CONST_FACTS = []
 def named(kind, text):
     """Variable("#STARTUNION#"), Terminal("#0UNION#"): one constant per (class, text)"""
     if (kind, text) not in NAMED:
         c = Const(f'{kind}_{text.strip("#")}', Ob.sort()); NAMED[(kind, text)] = c
-        W.axioms.append(isVar(c) if kind == 'Variable' else And(Not(isVar(c)), Not(isEps(c))))
+        W.axioms.append(isVar(c) if kind == 'Variable' else And(Not(isVar(c)), Not(isEps(c)))); CONST_FACTS.append(W.axioms[-1])
         same = [d for (k2, t2_), d in NAMED.items() if k2 == kind and t2_ != text]
         for d in same: W.axioms.append(c != d)                         # different texts: different values
     return NAMED[(kind, text)]
@@ -84,14 +84,22 @@ def WF_POS(G):
     return ForAll([pr, k_], Implies(And(G.P[pr], 0 <= k_, k_ < Length(body(pr))),
                                     And(Not(isEps(body(pr)[k_])), If(isVar(body(pr)[k_]), G.V[body(pr)[k_]], G.Tm[body(pr)[k_]]))))
 def ren(m, xx): return If(mdom(m, xx), mval(m, xx), xx)               # new_variables_d_local.get(x, x)
-def rel_t(q_, p_, m):
-    """q_ is p_ renamed by the dictionary m"""
-    return And(head(q_) == mval(m, head(p_)), Length(body(q_)) == Length(body(p_)),
-               ForAll([k_], Implies(And(0 <= k_, k_ < Length(body(p_))), body(q_)[k_] == ren(m, body(p_)[k_]))))
 def sig0(R0, fr, xx): return If(mdom(R0, xx), mval(R0, xx), If(mdom(fr, xx), mval(fr, xx), xx))
-def rel_0(q_, p_, R0, fr):
-    return And(head(q_) == mval(R0, head(p_)), Length(body(q_)) == Length(body(p_)),
-               ForAll([k_], Implies(And(0 <= k_, k_ < Length(body(p_))), body(q_)[k_] == sig0(R0, fr, body(p_)[k_]))))
+mm, m2 = Consts('mm m2', MapOO.sort()); sq2 = Const('sq2', SeqOb.sort())
+RenSeq = Function('RenSeq', MapOO.sort(), SeqOb.sort(), SeqOb.sort())                   # [m.get(x, x) for x in s]
+SigSeq = Function('SigSeq', MapOO.sort(), MapOO.sort(), SeqOb.sort(), SeqOb.sort())     # host bodies: variables renamed by R0, substituted terminals replaced
+RENSEQ_DEF = ForAll([mm, sq], And(Length(RenSeq(mm, sq)) == Length(sq),
+                                  ForAll([k_], Implies(And(0 <= k_, k_ < Length(sq)), RenSeq(mm, sq)[k_] == ren(Sym(MapOO, mm), sq[k_])))))
+SIGSEQ_DEF = ForAll([mm, m2, sq], And(Length(SigSeq(mm, m2, sq)) == Length(sq),
+                                      ForAll([k_], Implies(And(0 <= k_, k_ < Length(sq)), SigSeq(mm, m2, sq)[k_] == sig0(Sym(MapOO, mm), Sym(MapOO, m2), sq[k_])))))
+# sequence extensionality (valid in the theory of sequences; the solver does not apply it by itself)
+SEQ_EXT = ForAll([sq, sq2], Implies(And(Length(sq) == Length(sq2), ForAll([k_], Implies(And(0 <= k_, k_ < Length(sq)), sq[k_] == sq2[k_]))), sq == sq2))
+def ext_instance(a_, b_):
+    """the instance of SEQ_EXT for two given sequences (the solver does not find it from the quantified form)"""
+    return Implies(And(Length(a_) == Length(b_), ForAll([k_], Implies(And(0 <= k_, k_ < Length(a_)), a_[k_] == b_[k_]))), a_ == b_)
+W.axioms += [RENSEQ_DEF, SIGSEQ_DEF]
+def copy_t(p_, m): return mkprod(mval(m, head(p_)), RenSeq(m.term, body(p_)))                       # production p_ renamed by dictionary m
+def copy_0(p_, R0, fr): return mkprod(mval(R0, head(p_)), SigSeq(R0.term, fr.term, body(p_)))
 def names_ok(R0, doneV, G, doneT, S, idx, local=None, localV=None):
     """R0 names the variables in doneV, G[t] those of substitution[t] for t in doneT (and `local` those in localV): all names are variables,
     carry an index below idx, and no two of them are equal"""
@@ -111,16 +119,16 @@ def names_ok(R0, doneV, G, doneT, S, idx, local=None, localV=None):
                ForAll([w_, v_], Implies(And(localV(w_), doneV(v_)), mval(local, w_) != mval(R0, v_))),
                ForAll([t_, w_, w2], Implies(And(doneT(t_), sub_at(S, t_).V[w_], localV(w2)), mval(g_at(G, t_), w_) != mval(local, w2)))]
     return And(cl)
-def prods_ok(inP, S, G, doneT, cur=None, self_part=None):
+def prods_ok(inP, S, G, doneT, cur=None, self_part=None, pat=None):
     """membership predicate inP holds exactly of the renamed copies: of the productions of substitution[t], t in doneT; of those covered by
-    cur = (t, local dictionary, covered) for the grammar in progress; of those covered by self_part = (G_self, R0, fr, covered)"""
-    alts = lambda q_: [Exists([t_, pr], And(doneT(t_), sub_at(S, t_).P[pr], rel_t(q_, pr, g_at(G, t_))))] \
-        + ([Exists([pr], And(cur[2](pr), rel_t(q_, pr, cur[1])))] if cur else []) \
-        + ([Exists([pr], And(self_part[3](pr), rel_0(q_, pr, self_part[1], self_part[2])))] if self_part else [])
-    cl = [ForAll([q], Implies(inP(q), Or(alts(q)))),
-          ForAll([t_, pr], Implies(And(doneT(t_), sub_at(S, t_).P[pr]), Exists([q], And(inP(q), rel_t(q, pr, g_at(G, t_))))))]
-    if cur: cl.append(ForAll([pr], Implies(cur[2](pr), Exists([q], And(inP(q), rel_t(q, pr, cur[1]))))))
-    if self_part: cl.append(ForAll([pr], Implies(self_part[3](pr), Exists([q], And(inP(q), rel_0(q, pr, self_part[1], self_part[2]))))))
+    cur = (local dictionary, covered) for the grammar in progress; of those covered by self_part = (R0, fr, covered)"""
+    alts = lambda q_: [Exists([t_, pr], And(doneT(t_), sub_at(S, t_).P[pr], q_ == copy_t(pr, g_at(G, t_))), patterns=[sub_at(S, t_).P[pr]])] \
+        + ([Exists([pr], And(cur[1](pr), q_ == copy_t(pr, cur[0])), patterns=[head(pr)])] if cur else []) \
+        + ([Exists([pr], And(self_part[2](pr), q_ == copy_0(pr, self_part[0], self_part[1])), patterns=[head(pr)])] if self_part else [])
+    cl = [ForAll([q], Implies(inP(q), Or(alts(q))), patterns=[pat(q) if pat else inP(q)]),      # trigger: the membership term itself, never a comparison
+          ForAll([t_, pr], Implies(And(doneT(t_), sub_at(S, t_).P[pr]), inP(copy_t(pr, g_at(G, t_)))), patterns=[sub_at(S, t_).P[pr]])]
+    if cur: cl.append(ForAll([pr], Implies(cur[1](pr), inP(copy_t(pr, cur[0]))), patterns=[cur[1](pr)]))
+    if self_part: cl.append(ForAll([pr], Implies(self_part[2](pr), inP(copy_0(pr, self_part[0], self_part[1]))), patterns=[self_part[2](pr)]))
     return And(cl)
 def fr_ok(fr, S, G, doneT):
     return And(ForAll([t_], mdom(fr, t_) == doneT(t_)), ForAll([t_], Implies(doneT(t_), mval(fr, t_) == mval(g_at(G, t_), sub_at(S, t_).S.term))))
@@ -129,13 +137,12 @@ def subst_pre(o):
     S = o.substitution
     return And(C.WF(o.self), ForAll([t_], Implies(mdom(S, t_), C.WF(sub_at(S, t_)))))
 def subst_post(o, r, n, g):
-    A, S, R0, G = o.self, o.substitution, g.R0, g.G
+    A, S, R0, G, FR = o.self, o.substitution, g.R0, g.G, g.FR
     inS = lambda t: mdom(S, t)
-    fr_val = lambda xx: mval(g_at(G, xx), sub_at(S, xx).S.term)
-    frm = MapOO.make(dom=Sym(SetOb, Lambda([x], mdom(S, x))), val=Sym(MapOO.ftype('val'), Lambda([x], fr_val(x))))
     return And(names_ok(R0, lambda v: A.V[v], G, inS, S, None),
+               fr_ok(FR, S, G, inS),                                   # FR[t] is the renamed start symbol of substitution[t]
                r.S == mval(R0, A.S.term),
-               prods_ok(lambda q_: r.P[q_], S, G, inS, None, (A, R0, frm, lambda p_: A.P[p_])))
+               prods_ok(lambda q_: r.P[q_], S, G, inS, None, (R0, FR, lambda p_: A.P[p_])))
 
 def inv0(e, done):
     return And(e.idx.term >= 0, names_ok(e.new_variables_d, lambda v: done[v], e.get('$g.G'), lambda t: BoolVal(False), e.substitution, e.idx.term),
@@ -144,32 +151,32 @@ def common1(e, doneT, local=None, localV=None):
     return And(e.idx.term >= 0, names_ok(e.new_variables_d, lambda v: e.self.V[v], e.get('$g.G'), doneT, e.substitution, e.idx.term, local, localV))
 def inv1(e, done):
     dT = lambda t: done[t]
-    return And(common1(e, dT), prods_ok(lambda q_: e.productions[q_] > 0, e.substitution, e.get('$g.G'), dT), ForAll([q], e.productions[q] >= 0),
+    return And(common1(e, dT), prods_ok(lambda q_: e.productions[q_] > 0, e.substitution, e.get('$g.G'), dT, pat=lambda q_: e.productions[q_]), ForAll([q], e.productions[q] >= 0),
                fr_ok(e.final_replacement, e.substitution, e.get('$g.G'), dT))
 def cur_cfg(e): return e.cfg
 def inv10(e, done):
     dT = lambda t: e.get('$done1')[t]
     return And(common1(e, dT, e.new_variables_d_local, lambda w: done[w]),
-               prods_ok(lambda q_: e.productions[q_] > 0, e.substitution, e.get('$g.G'), dT), ForAll([q], e.productions[q] >= 0),
+               prods_ok(lambda q_: e.productions[q_] > 0, e.substitution, e.get('$g.G'), dT, pat=lambda q_: e.productions[q_]), ForAll([q], e.productions[q] >= 0),
                fr_ok(e.final_replacement, e.substitution, e.get('$g.G'), dT))
 def inv11(e, done, inner=None):
     dT = lambda t: e.get('$done1')[t]
     return And(common1(e, dT, e.new_variables_d_local, lambda w: e.cfg.V[w]),
-               prods_ok(lambda q_: e.productions[q_] > 0, e.substitution, e.get('$g.G'), dT, (None, e.new_variables_d_local, lambda p_: done[p_])),
+               prods_ok(lambda q_: e.productions[q_] > 0, e.substitution, e.get('$g.G'), dT, (e.new_variables_d_local, lambda p_: done[p_]), pat=lambda q_: e.productions[q_]),
                ForAll([q], e.productions[q] >= 0),
                fr_ok(e.final_replacement, e.substitution, e.get('$g.G'), dT))
 def inv110(e, i):
     b = body(e.production.term)
-    return And(inv11(e, e.get('$done1.1')), Length(e.body.term) == i.term,
+    return And(Length(e.body.term) == i.term,          # nothing but `body` changes in this loop: the facts of the enclosing iteration stay in the context
                ForAll([k_], Implies(And(0 <= k_, k_ < i.term), And(e.body.term[k_] == ren(e.new_variables_d_local, b[k_]), Not(isEps(e.body.term[k_]))))))
 def inv2(e, done):
     dT = lambda t: mdom(e.substitution, t)
     return And(common1(e, dT), ForAll([q], e.productions[q] >= 0),
-               prods_ok(lambda q_: e.productions[q_] > 0, e.substitution, e.get('$g.G'), dT, None, (e.self, e.new_variables_d, e.final_replacement, lambda p_: done[p_])),
+               prods_ok(lambda q_: e.productions[q_] > 0, e.substitution, e.get('$g.G'), dT, None, (e.new_variables_d, e.final_replacement, lambda p_: done[p_]), pat=lambda q_: e.productions[q_]),
                fr_ok(e.final_replacement, e.substitution, e.get('$g.G'), dT))
 def inv20(e, i):
     b = body(e.production.term)
-    return And(inv2(e, e.get('$done2')), Length(e.body.term) == i.term,
+    return And(Length(e.body.term) == i.term,
                ForAll([k_], Implies(And(0 <= k_, k_ < i.term), And(e.body.term[k_] == sig0(e.new_variables_d, e.final_replacement, b[k_]), Not(isEps(e.body.term[k_]))))))
 
 W.contract(Contract('CFG.substitute', [('self', CFGT), ('substitution', SubstT)], ret=CFGT, fresh_result=True, requires=subst_pre, ensures=subst_post,
@@ -177,13 +184,74 @@ W.contract(Contract('CFG.substitute', [('self', CFGT), ('substitution', SubstT)]
     ghost_state={'G': (MapOM, lambda o: MapOM.make(dom=SetOb.empty(), val=MapOM.ftype('val').fresh('G0')))},
     ghost_updates={'1': lambda e: {'G': MapOM.make(dom=Sym(SetOb, Store(MapOM.get(e.get('$g.G'), 'dom').term, e.ter.term, True)),
                                                    val=Sym(MapOM.ftype('val'), Store(MapOM.get(e.get('$g.G'), 'val').term, e.ter.term, e.new_variables_d_local.term)))}},
-    ghosts={'R0': MapOO, 'G': MapOM}, ghost_witness=lambda o, e: {'R0': e.new_variables_d, 'G': e.get('$g.G')},
+    ghosts={'R0': MapOO, 'G': MapOM, 'FR': MapOO}, ghost_witness=lambda o, e: {'R0': e.new_variables_d, 'G': e.get('$g.G'), 'FR': e.final_replacement},
     entry_lemmas=lambda o: [('WF by position (host)', [INBODY_DEF, NOEPS_DEF, INBODY_INTRO], WF_POS(o.self)),
                             ('WF by position (substituted grammars)', [INBODY_DEF, NOEPS_DEF, INBODY_INTRO], ForAll([t_], Implies(mdom(o.substitution, t_), WF_POS(sub_at(o.substitution, t_)))))],
+    loop_post_isolated={'1.1.0': (lambda e: [RENSEQ_DEF, ext_instance(e.body.term, RenSeq(e.new_variables_d_local.term, body(e.production.term))), INBODY_DEF, NOEPS_DEF],
+                                  lambda e: And(e.body.term == RenSeq(e.new_variables_d_local.term, body(e.production.term)), NoEps(e.body.term))),
+                        '2.0': (lambda e: [SIGSEQ_DEF, ext_instance(e.body.term, SigSeq(e.new_variables_d.term, e.final_replacement.term, body(e.production.term))), INBODY_DEF, NOEPS_DEF],
+                                lambda e: And(e.body.term == SigSeq(e.new_variables_d.term, e.final_replacement.term, body(e.production.term)), NoEps(e.body.term)))},
     loops={'0': inv0, '1': inv1, '1.0': inv10, '1.1': inv11, '1.1.0': inv110, '2': inv2, '2.0': inv20}))
+
+# ------------------------------------------------------------------ union, concatenate, get_closure, get_positive_closure
+# Each is proved to be `template.substitute({placeholder: operand, ...})` for the template grammar written below: the postcondition says that
+# there are a template T of exactly that shape and renamings (R0, G, FR) such that the postcondition of substitute holds for T and the operands.
+def dict_of(pairs):
+    """the value of the dict literal {k1: v1, ...} (as the engine evaluates it)"""
+    dom = SetOb.empty().term; val = K(Ob.sort(), Const(f'absent!{CFGT.name}', CFGT.sort()))
+    for k, v in pairs: dom = Store(dom, k, True); val = Store(val, k, v.term)
+    return SubstT.make(dom=Sym(SetOb, dom), val=Sym(SubstT.ftype('val'), val))
+def seq_of(*els):
+    if not els: return Empty(SeqOb.sort())
+    if isinstance(els[0], (list, tuple)): els = tuple(els[0])
+    if not els: return Empty(SeqOb.sort())
+    t = Unit(els[0])
+    for e_ in els[1:]: t = Concat(t, Unit(e_))
+    return t
+EMPTY = Empty(SeqOb.sort())
+def template_is(T, start, variables, terminals, prods):
+    return And(T.S == start, ForAll([x], T.V[x] == Or([x == v for v in variables])), ForAll([x], T.Tm[x] == Or([x == t for t in terminals])),
+               ForAll([pr], T.P[pr] == Or([pr == mkprod(h, seq_of(b)) for h, b in prods])))
+def op_contract(name, params, template, subst):
+    """template(o) -> (start, variables, terminals, productions); subst(o) -> [(placeholder, operand)]"""
+    def post(o, r, n, g):
+        st_, vs_, ts_, ps_ = template()
+        return And(template_is(g.T, st_, vs_, ts_, ps_), subst_post(NS({'self': g.T, 'substitution': dict_of(subst(o))}), r, None, g))
+    W.contract(Contract(name, params, ret=CFGT, fresh_result=True, requires=lambda o: And([C.WF(o.get(p)) for p, _ in params]), ensures=post,
+        entry_lemmas=lambda o: [(f'literal body {i}: its members', [INBODY_DEF], ForAll([x], InBody(seq_of(b_), x) == Or([x == el for el in b_] or [BoolVal(False)])))
+                                for i, (h_, b_) in enumerate(template()[3])]
+                             + [(f'literal body {i} holds no epsilon object', [INBODY_DEF, NOEPS_DEF, ForAll([x], Implies(isEps(x), Not(isVar(x))))] + CONST_FACTS, NoEps(seq_of(b_)))
+                                for i, (h_, b_) in enumerate(template()[3])],
+        ghosts={'T': CFGT, 'R0': MapOO, 'G': MapOM, 'FR': MapOO},
+        ghost_witness=lambda o, e: {'T': e.cfg_temp, 'R0': e.get('$ghost.substitute.R0'), 'G': e.get('$ghost.substitute.G'), 'FR': e.get('$ghost.substitute.FR')}))
+V_, T_ = (lambda s_: named('Variable', s_)), (lambda s_: named('Terminal', s_))
+op_contract('CFG.union', [('self', CFGT), ('other', CFGT)],
+            lambda: (V_('#STARTUNION#'), [V_('#STARTUNION#')], [T_('#0UNION#'), T_('#1UNION#')],
+                     [(V_('#STARTUNION#'), [T_('#0UNION#')]), (V_('#STARTUNION#'), [T_('#1UNION#')])]),
+            lambda o: [(T_('#0UNION#'), o.self), (T_('#1UNION#'), o.other)])
+op_contract('CFG.concatenate', [('self', CFGT), ('other', CFGT)],
+            lambda: (V_('#STARTCONC#'), [V_('#STARTCONC#')], [T_('#0CONC#'), T_('#1CONC#')], [(V_('#STARTCONC#'), [T_('#0CONC#'), T_('#1CONC#')])]),
+            lambda o: [(T_('#0CONC#'), o.self), (T_('#1CONC#'), o.other)])
+op_contract('CFG.get_closure', [('self', CFGT)],
+            lambda: (V_('#STARTCLOS#'), [V_('#STARTCLOS#')], [T_('#1CLOS#')],
+                     [(V_('#STARTCLOS#'), [T_('#1CLOS#')]), (V_('#STARTCLOS#'), [V_('#STARTCLOS#'), V_('#STARTCLOS#')]), (V_('#STARTCLOS#'), [])]),
+            lambda o: [(T_('#1CLOS#'), o.self)])
+op_contract('CFG.get_positive_closure', [('self', CFGT)],
+            lambda: (V_('#STARTPOSCLOS#'), [V_('#STARTPOSCLOS#'), V_('#VARPOSCLOS#')], [T_('#1POSCLOS#')],
+                     [(V_('#STARTPOSCLOS#'), [T_('#1POSCLOS#'), V_('#VARPOSCLOS#')]), (V_('#VARPOSCLOS#'), [V_('#VARPOSCLOS#'), V_('#VARPOSCLOS#')]),
+                      (V_('#VARPOSCLOS#'), [T_('#1POSCLOS#')]), (V_('#VARPOSCLOS#'), [])]),
+            lambda o: [(T_('#1POSCLOS#'), o.self)])
 
 W.ground_sorts = (Ob.sort(),)
 W.special = {}
 _P = 'pyformlang/cfg/cfg.py'
-TARGETS = {'CFG.substitute': (_P, 'CFG.substitute')}
-SMOKE = []
+TARGETS = {k: (_P, k) for k in ('CFG.substitute', 'CFG.union', 'CFG.concatenate', 'CFG.get_closure', 'CFG.get_positive_closure')}
+SMOKE = [
+    ('CFG.substitute', _P, "                new_variables_d_local[variable] = temp\n                new_vars.add(temp)\n                idx += 1", "                new_variables_d_local[variable] = temp\n                new_vars.add(temp)", 'break'),
+    ('CFG.substitute', _P, "                elif cfgobj in final_replacement:\n                    body.append(final_replacement[cfgobj])", "                elif cfgobj in final_replacement:\n                    body.append(cfgobj)", 'break'),
+    ('CFG.substitute', _P, "            final_replacement[ter] = new_variables_d_local[cfg.start_symbol]", "            final_replacement[ter] = new_variables_d_local[production.head]", 'break'),
+    ('CFG.union', _P, "        return cfg_temp.substitute({temp_0: self,\n                                    temp_1: other})\n\n    def __or__", "        return cfg_temp.substitute({temp_0: self,\n                                    temp_1: self})\n\n    def __or__", 'break'),
+    ('CFG.concatenate', _P, "        production0 = Production(start_temp, [temp_0, temp_1])", "        production0 = Production(start_temp, [temp_1, temp_0])", 'break'),
+    ('CFG.get_closure', _P, "                       {production0, production1, production2})\n        return cfg_temp.substitute({temp_1: self})\n\n    def get_positive_closure", "                       {production0, production1})\n        return cfg_temp.substitute({temp_1: self})\n\n    def get_positive_closure", 'break'),
+    ('CFG.get_positive_closure', _P, "        production0 = Production(start_temp, [temp_1, var_temp])", "        production0 = Production(start_temp, [var_temp])", 'break'),
+]
